@@ -149,6 +149,16 @@ def trait_of(sh, default=None, top=False, **md):
     raise ValueError(sh)
 
 
+def _accessors(shadow):
+    # arity matters: traits passes (object[, name[, value]]) according to the argument count
+    def getter(self):
+        return getattr(self, shadow)
+
+    def setter(self, value):
+        setattr(self, shadow, value)
+    return getter, setter
+
+
 def build_class(decl_str, decls):
     """HasTraits subclass for a declaration list (cached; importable by pickle)."""
     if decl_str in _CLASSES:
@@ -159,8 +169,8 @@ def build_class(decl_str, decls):
         md = {}
         if d["transient"]:
             md["transient"] = True
-        if d["copy"] is not None:
-            md["copy"] = d["copy"]
+        if d["kind"] in ("v", "p"):
+            md["copy"] = d["copy"]  # always explicit: List/Set/Instance would default to "deep", Dict to nothing
         n = d["name"]
         if d["kind"] == "v":
             ns[n] = trait_of(d["shape"], d["default"], **md)
@@ -173,13 +183,7 @@ def build_class(decl_str, decls):
             ns[sh] = Any(d["default"], transient=True)
             ns[n] = Property(trait_of(d["shape"]), **md)
 
-            def getter(self, _sh=sh):
-                return getattr(self, _sh)
-
-            def setter(self, value, _sh=sh):
-                setattr(self, _sh, value)
-            ns["_get_" + n] = getter
-            ns["_set_" + n] = setter
+            ns["_get_" + n], ns["_set_" + n] = _accessors(sh)
     cname = "C%d" % len(_CLASSES)
     ns["__module__"] = __name__
     ns["__qualname__"] = cname
@@ -584,16 +588,26 @@ def run_p(case):
             scl = shape_class(d["shape"])
             sv = getattr(src, name)
             srcflag = bind_flag(sv, src) if is_cont(sv) else "-"
+            sconts, sobjs = {}, {}
+            walk_ids(sv, sconts, sobjs)
+            if any(bind_flag(c, src) == "d" for c in sconts.values()):
+                srcflag = "d"
+            eff = d["copy"] or {"clone-ref": "ref", "clone-shallow": "shallow", "clone-deep": "deep",
+                                "deepcopy": "ref", "copy": "copy", "pickle": "pickle"}[last_sig]
             if d["transient"]:
                 dv = d["default"]
                 if d["kind"] == "r":
                     dv = Undefined
                 if plain(v) != plain(dv):
-                    hits.append({"signature": "transient-not-default:%s:%s" % (last_sig, scl),
+                    allt = all(x["transient"] or x["kind"] == "e" for x in decls)
+                    hits.append({"signature": "transient-not-default:%s:%s" % (
+                        last_sig if last_sig in ("pickle", "copy") else "clone",
+                        "all-traits-transient" if allt else "some-traits-copyable"),
                                  "what": "transient %s = %r after %s" % (name, v, last_sig)})
                 continue
             if plain(v) != plain(sv):
-                hits.append({"signature": "value-differs:%s:%s:%s%s" % (last_sig, scl, srcflag, d["kind"]),
+                hits.append({"signature": "value-differs:%s:%s:src-%s" % (
+                    last_sig if last_sig in ("pickle", "copy") else "clone", eff, srcflag),
                              "what": "%s: original %r, after %s %r" % (name, sv, last_sig, v)})
             if d["kind"] == "r" and sv is not Undefined:
                 if (name + ":rej") not in ro:
@@ -604,10 +618,8 @@ def run_p(case):
             walk_ids(v, conts, objs)
             shared = [i for i in conts if i in old]
             shared_objs = [i for i in objs if i in eobjs]
-            eff = d["copy"] or {"clone-ref": "ref", "clone-shallow": "shallow", "clone-deep": "deep",
-                                "deepcopy": "ref?", "copy": "shallow", "pickle": "deep"}[last_sig]
             if deep_like and (shared or shared_objs) and d["copy"] in (None, "deep"):
-                hits.append({"signature": "shared-mutable:%s:%s:%s" % (last_sig, scl, srcflag),
+                hits.append({"signature": "shared-mutable:%s:copy-metadata-%s" % (last_sig, d["copy"]),
                              "what": "%s shares %d container(s) / %d object(s) with the original after %s" % (
                                  name, len(shared), len(shared_objs), last_sig)})
             # declared container positions are rebuilt whatever the mode
@@ -743,8 +755,10 @@ def gen_decls(rng):
             if r < 0.15:
                 tr = "1"
             r = rng.random()
-            if r < 0.3:
-                cp = rng.choice(["r", "s", "d"])
+            natural = "d" if (sh[0] in ("L", "S") or sh == N) else "-"   # what the trait type defaults to
+            cp = natural
+            if r < 0.35:
+                cp = rng.choice(["r", "s", "d", "-"])
         dv = default_tok(sh) if kind != "r" else "u"
         if kind == "v" and sh == I and rng.random() < 0.3:
             dv = "i 3"
